@@ -579,7 +579,6 @@ DefaultWellDesignated(c) ==
   THEN /\ MarkedVariants(c) = {}
        /\ \A v \in 1..NVariants(c) : \A i \in FieldIdx(c, v) :
              c.variants[v].fields[i].dflt = "none" /\ ~c.variants[v].fields[i].deref
-       /\ NVariants(c) >= 1
   ELSE IF c.kind = "union"
   THEN NFields(c, 1) = 1 \/ Cardinality(UnionMarked(c)) = 1
   ELSE IF c.kind = "enum"
